@@ -49,6 +49,9 @@
 //     appended to the trace as `("set resp.Compress", ["true"])`; values read
 //     from abstract objects are re-read (fresh parameters) after any opaque
 //     call or such a write;
+//   - with "trace", an assignment to a field of abstract type of a translated
+//     struct (`cr.subnet = netutil.ZeroPrefix(fam)`) is the trace entry
+//     ("set cr.subnet", [name]) as well;
 //   - with the option "names" a value of abstract type that is assigned to a
 //     local or returned is instead represented by a *symbolic name* (a Lean
 //     String): the source text of the field path, parameter, `nil` or call that
@@ -1893,6 +1896,15 @@ func (c *fctx) assignCode(lhs ast.Expr, code string, k func() string) string {
 		}
 		return fmt.Sprintf("let %s := %s\n", leanIdent(l.Name), code) + k()
 	case *ast.SelectorExpr:
+		if c.trace && c.t.isAbstract(c.typeOf(lhs)) {
+			// a field of abstract type of a translated struct is not part of
+			// the Lean structure: the write is an effect, recorded in the trace
+			arg := "\"_\""
+			if c.spec.Names {
+				arg = code
+			}
+			return fmt.Sprintf("let tr := tr ++ [(%q, [%s])]\n", "set "+c.show(lhs), arg) + k()
+		}
 		base, ok := l.X.(*ast.Ident)
 		if !ok {
 			fail("nested field assignment %s", c.show(lhs))
